@@ -6,7 +6,7 @@
    (2) The repaired model still depends on the insertion order inside a collision
    bucket: history independence fails without the collision_free hypothesis. *)
 From Coq Require Import List ZArith Bool.
-From GZ Require Import C15.Model C15.Cluster C15.Conc.
+From GZ Require Import C15.Model C15.Cluster C15.Conc C15.Check C15.Proofs C15.ProofsB.
 Import ListNotations.
 Open Scope Z_scope.
 
@@ -368,3 +368,73 @@ Proof. vm_compute. repeat split; try discriminate; auto. Qed.
 Example p9_no_interference :
   p9_publish p9_hash 3 (mkNode 3 3) 3 (keys p9_before) p9_before = astep p9_hash 3 p9_before (AInsert (mkNode 3 3) 3).
 Proof. vm_compute. reflexivity. Qed.
+
+(* (8) seeded change C15-10 — "re-adding a node with an unchanged replica count is a no-op": next to the
+   node set the ring records, per repr, the number of virtual nodes the member was added with;
+   AddWithReplicas clamps the count and RETURNS when the repr is registered with exactly that count.
+   Membership is keyed by the repr, but a lookup returns the VALUE stored in the slots: a later add of a
+   different value with the same repr (another pointer with the same String(), 1 vs "1") and the same
+   effective count must replace the former value — here the former value stays. *)
+Section Pinned10.
+Variable vh : Z -> Z -> Z.
+Variable R : Z.
+
+Definition p10_remove (n : Z) (p : pstate) : pstate :=
+  mkP (remove vh R n (pst p)) (filter (fun kc => negb (fst kc =? n)) (pcnt p)).
+
+Definition p10_add (x : node) (r : Z) (p : pstate) : pstate :=
+  let r' := if R <? r then R else r in
+  let fresh := mkP (add_with_replicas vh R x r' (pst p))
+                   ((nrepr x, r') :: filter (fun kc => negb (fst kc =? nrepr x)) (pcnt p)) in
+  match pcount (nrepr x) (pcnt p) with
+  | Some c => if c =? r' then p else fresh        (* holds(repr, replicas): nothing to do *)
+  | None => fresh
+  end.
+
+Definition p10_step (p : pstate) (o : op) : pstate :=
+  match o with
+  | OAdd x => p10_add x R p
+  | OAddR x r => p10_add x r p
+  | OAddW x w => p10_add x (Z.quot (wrap64 (R * w)) 100) p
+  | ORemove x => p10_remove (nrepr x) p
+  end.
+
+Definition p10_run (ops : list op) : state := pst (fold_left p10_step ops (mkP init [])).
+End Pinned10.
+
+Definition p10_hash (n i : Z) : Z := n * 1000 + i.
+
+(* the statement of Props.latest_value_wins fails for the variant: Add(value 0 of repr 1), then
+   AddWithReplicas(value 1 of repr 1, 150) — 150 is truncated to h.replicas = 100, the recorded count —
+   and the lookup is still answered with value 0, which is no longer in the ring's membership *)
+Theorem same_count_skip_refuted :
+  exists vh R pre o post hp ihp y,
+    is_add o = true /\
+    forallb (fun o' => negb (nrepr (op_node o') =? nrepr (op_node o))) post = true /\
+    get (p10_run vh R (pre ++ o :: post)) hp ihp = GSome y /\
+    nrepr y = nrepr (op_node o) /\ y <> op_node o.
+Proof.
+  exists p10_hash, 100, [OAdd (mkNode 1 0)], (OAddR (mkNode 1 1) 150), [OAdd (mkNode 2 2)], 1050, 0, (mkNode 1 0).
+  vm_compute. repeat split; try reflexivity. discriminate.
+Qed.
+
+(* ... and so does history independence over (repr |-> replicas, value): two histories with the same
+   final node map, different answers (the result depends on the registration history) *)
+Theorem same_count_skip_history_dependent_refuted :
+  exists vh R ops1 ops2 hp ihp,
+    (forall n, alookup n (amap_run R ops1) = alookup n (amap_run R ops2)) /\
+    get (p10_run vh R ops1) hp ihp <> get (p10_run vh R ops2) hp ihp.
+Proof.
+  exists p10_hash, 100, [OAddW (mkNode 1 0) 50; OAddW (mkNode 1 1) 50], [OAddW (mkNode 1 1) 50], 1010, 0.
+  split; [intros n; vm_compute; reflexivity | vm_compute; discriminate].
+Qed.
+
+(* the code as it is, on the same histories: the later value answers, both histories agree; and the
+   variant is the code as it is whenever the count changes or a Remove comes in between *)
+Example p10_as_is :
+  get (run p10_hash 100 [OAdd (mkNode 1 0); OAddR (mkNode 1 1) 150; OAdd (mkNode 2 2)]) 1050 0 = GSome (mkNode 1 1) /\
+  get (run p10_hash 100 [OAddW (mkNode 1 0) 50; OAddW (mkNode 1 1) 50]) 1010 0 = GSome (mkNode 1 1) /\
+  p10_run p10_hash 100 [OAdd (mkNode 1 0); OAddW (mkNode 1 1) 50] = run p10_hash 100 [OAdd (mkNode 1 0); OAddW (mkNode 1 1) 50] /\
+  p10_run p10_hash 100 [OAdd (mkNode 1 0); ORemove (mkNode 1 0); OAdd (mkNode 1 1)] =
+    run p10_hash 100 [OAdd (mkNode 1 0); ORemove (mkNode 1 0); OAdd (mkNode 1 1)].
+Proof. vm_compute. auto. Qed.
